@@ -150,7 +150,7 @@ Lemma probe_layer_LDI c f um sk ld n : LDI sk ld ->
   LDI sk (probe_layer c f um ld n) /\ ld_order (probe_layer c f um ld n) = ld_order ld.
 Proof.
   intros H. unfold probe_layer. destruct (lm_get (ld_map ld) n) as [l|] eqn:El; [|now split].
-  destruct (l_state l =? st_error)%N; [now split|]. cbv zeta. split; [|reflexivity].
+  cbv zeta. split; [|reflexivity].
   pose proof (lm_get_name _ _ _ El) as En. subst n.
   apply (LDI_set_layer sk ld _ l H El).
   repeat match goal with |- context [if ?b then _ else _] => destruct b end;
@@ -236,7 +236,7 @@ Qed.
 Lemma probe_layer_paths c f um ld n : paths_ok c (ld_map ld) -> paths_ok c (ld_map (probe_layer c f um ld n)).
 Proof.
   intros H. unfold probe_layer. destruct (lm_get (ld_map ld) n) as [l|] eqn:El; [|exact H].
-  destruct (l_state l =? st_error)%N; [exact H|]. cbv zeta. cbn [ld_map].
+  cbv zeta. cbn [ld_map].
   pose proof (lm_get_name _ _ _ El) as En. subst n.
   apply (paths_ok_set c _ _ l H El).
   repeat match goal with |- context [if ?b then _ else _] => destruct b end;
@@ -280,7 +280,7 @@ Qed.
 Lemma probe_layer_cores c f g um ld n : cores_ok c g (ld_map ld) -> cores_ok c g (ld_map (probe_layer c f um ld n)).
 Proof.
   intros H. unfold probe_layer. destruct (lm_get (ld_map ld) n) as [l|] eqn:El; [|exact H].
-  destruct (l_state l =? st_error)%N; [exact H|]. cbv zeta. cbn [ld_map].
+  cbv zeta. cbn [ld_map].
   pose proof (lm_get_name _ _ _ El) as En. subst n.
   apply (cores_ok_set c g _ _ l H El).
   repeat match goal with |- context [if ?b then _ else _] => destruct b end;
